@@ -181,8 +181,9 @@ class ExcClassVal(object):
 
 
 class OpaqueType(object):
-    def __init__(self, sort):
+    def __init__(self, sort, path=None):
         self.sort = sort
+        self.path = path
 
 
 class ClassRef(object):
@@ -258,6 +259,15 @@ class FuncVal(object):
 
     def __repr__(self):
         return '<func %s>' % self.name
+
+
+class PropertyVal(object):
+    """The result of the builtin property(getter) in interpreted code."""
+    def __init__(self, getter):
+        self.getter = getter
+
+    def __repr__(self):
+        return '<property %r>' % (self.getter,)
 
 
 class Native(object):
@@ -709,6 +719,10 @@ class Interp(object):
             if attr == '__dict__':
                 return v.attrs
             m = v.cls.lookup(attr)
+            if m is not None and m.decorators:
+                pv = self.user_property(m)
+                if pv is not None:
+                    return self.call(pv.getter, [v], {})
             if m is not None:
                 if 'staticmethod' in m.decorators:
                     return FuncVal(m.rel, m.node, None, None, m.cls)
@@ -836,6 +850,26 @@ class Interp(object):
             raise InterpRaise('AttributeError', "'NoneType' object has no attribute %r" % attr, node)
         raise Uninterpretable('attribute %r of %r' % (attr, v))
 
+    def user_property(self, m):
+        """A method under a decorator defined in supp itself (a module-level function) whose application gives a property:
+        the decorator is applied (once per method) and the property's getter is what attribute access runs."""
+        cache = self.__dict__.setdefault('_user_props', {})
+        key = id(m.node)
+        if key in cache:
+            return cache[key]
+        cache[key] = None
+        if len(m.decorators) == 1 and m.decorators[0] not in ('property', 'cached_property', 'context_property', 'staticmethod',
+                                                               'classmethod', 'contextmanager'):
+            try:
+                dec = self.lookup_global(m.rel, m.decorators[0])
+            except Uninterpretable:
+                dec = None
+            if isinstance(dec, FuncVal) and dec.cls is None:
+                r = self.call(dec, [FuncVal(m.rel, m.node, None, None, m.cls)], {})
+                if isinstance(r, PropertyVal):
+                    cache[key] = r
+        return cache[key]
+
     def setattr(self, v, attr, value):
         if isinstance(v, Obj):
             v.attrs[attr] = value
@@ -925,6 +959,8 @@ class Interp(object):
                             or G.SORT_OF.get(k.name) == v.sort or k.name not in G.SORT_OF]
                 if not possible:
                     return False
+                if getattr(self, 'opaque_policy', 'fork') == 'none':
+                    return self.asked_class(v.path, v.sort, possible)
                 return self.decide(('isinstance', v.path, names))
             for k in classes:
                 if isinstance(k, AstClass):
@@ -958,7 +994,7 @@ class Interp(object):
     def nat_type(self, args, kwargs):
         v, = args
         if isinstance(v, SymNode):
-            return AstClass(v.cls) if v.cls else OpaqueType(v.sort)
+            return AstClass(v.cls) if v.cls else OpaqueType(v.sort, v.path)
         if isinstance(v, Obj):
             return AstClass(v.astcls) if v.astcls is not None else ClassRef(v.cls)
         if isinstance(v, Unknown):
@@ -1136,6 +1172,29 @@ class Interp(object):
             return LocExpr('min', tuple(repr(v) for v in vals))
         return min(vals)
 
+    def asked_class(self, path, sort, classes):
+        """Policy 'none' for arbitrary (opaque) nodes: an arbitrary expression / statement is none of the node classes the code
+        asks about - each class asked for is recorded, and the shapes are generated again with a real node of that class at that
+        position (demand-driven refinement, sa/e1.py).  A question about the whole sort (`isinstance(x, ast.expr)`) is true."""
+        names = []
+        for k in classes:
+            n = getattr(k, 'name', None)
+            if n in ('AST', sort):
+                return True
+            if n is not None and G.SORT_OF.get(n) == sort and n in G.NODE_FIELDS:
+                names.append(n)
+        if names and path is not None:
+            self.effect('asked-class', path, tuple(sorted(names)))
+        return False
+
+    def nat_property(self, args, kwargs):
+        if not args or not isinstance(args[0], (FuncVal, Native)):
+            raise Uninterpretable('property(%r)' % (args,))
+        return PropertyVal(args[0])
+
+    def nat_frozenset(self, args, kwargs):
+        return frozenset(self.iterate(args[0])) if args else frozenset()
+
     def nat_next(self, args, kwargs):
         v = args[0]
         if isinstance(v, list):          # generator expressions are materialised: next() takes the first element
@@ -1250,7 +1309,11 @@ class Interp(object):
             if isinstance(a, (AstClass, OpaqueType)) or isinstance(b, (AstClass, OpaqueType)):
                 if isinstance(a, OpaqueType) or isinstance(b, OpaqueType):
                     other = b if isinstance(a, OpaqueType) else a
-                    r = self.decide(('type-is', getattr(other, 'name', repr(other))))
+                    op_ = a if isinstance(a, OpaqueType) else b
+                    if getattr(self, 'opaque_policy', 'fork') == 'none':
+                        r = self.asked_class(op_.path, op_.sort, [other])
+                    else:
+                        r = self.decide(('type-is', getattr(other, 'name', repr(other))))
                 else:
                     r = a is b
             elif isinstance(a, ClassRef) and isinstance(b, ClassRef):
@@ -1263,6 +1326,20 @@ class Interp(object):
             else:
                 r = a is b
             return r if isinstance(op, ast.Is) else not r
+        if getattr(self, 'ident_policy', None) == 'fork' and isinstance(op, (ast.Eq, ast.NotEq, ast.In, ast.NotIn)):
+            # an identifier of the analysed program compared with string constants: it may be any of them, or none
+            ident, consts = None, None
+            if isinstance(a, SymIdent) and a.derived is None and a.path is not None and not isinstance(b, SymIdent):
+                if isinstance(op, (ast.Eq, ast.NotEq)) and type(b) is str:
+                    ident, consts = a, (b,)
+                elif isinstance(op, (ast.In, ast.NotIn)) and isinstance(b, (tuple, list, set, frozenset)) and b and \
+                        all(type(x) is str for x in b):
+                    ident, consts = a, tuple(sorted(b))
+            elif isinstance(b, SymIdent) and b.derived is None and b.path is not None and type(a) is str and isinstance(op, (ast.Eq, ast.NotEq)):
+                ident, consts = b, (a,)
+            if ident is not None and str(ident) not in consts and all(c.isidentifier() for c in consts):
+                r = self.decide(('ident-is', ident.path, consts))
+                return r if isinstance(op, (ast.Eq, ast.In)) else not r
         if isinstance(op, (ast.Eq, ast.NotEq)):
             if isinstance(a, (Native, ClassRef, AstClass)) and isinstance(b, (Native, ClassRef, AstClass)):
                 r = self.compare(ast.Is(), a, b, node)
@@ -1282,7 +1359,10 @@ class Interp(object):
             elif isinstance(b, (list, tuple, set, dict, str)):
                 if isinstance(a, (OpaqueType,)):
                     names = tuple(sorted(getattr(k, 'name', repr(k)) for k in b))
-                    r = self.decide(('type-in', names))
+                    if getattr(self, 'opaque_policy', 'fork') == 'none':
+                        r = self.asked_class(a.path, a.sort, list(b))
+                    else:
+                        r = self.decide(('type-in', names))
                 elif isinstance(a, (AstClass, ClassRef, Native)):
                     r = any(self.compare(ast.Is(), a, x, node) for x in b)
                 else:
